@@ -1046,9 +1046,18 @@ pub fn c19(rec: &mut Rec, lm: &Landmarks, rng: &mut Rng, thorough: bool) {
     let n = if thorough { 30_000 } else { 1_200 };
     for i in 0..n {
         let ts = SCALES[i % 9];
-        let v = if i % 5 == 0 { (elapsed_4digit(rng, ts) / NS_S as i128) * NS_S as i128 } else { elapsed_4digit(rng, ts) };
+        // sub-second part: none, a landmark (a whole number of milli- or microseconds, one nanosecond, one short of a
+        // second: an optional %f is omitted only when all nine digits are zero), or random
+        let v = match i % 5 {
+            0 => (elapsed_4digit(rng, ts) / NS_S as i128) * NS_S as i128,
+            1 | 2 => {
+                let sub = [500_000_000i128, 123_456_000, 1_000, 999_999_000, 1, 100_000_000, 999_999_999, 250_000_000, 1_000_000, 10][(i / 5) % 10];
+                (elapsed_4digit(rng, ts).div_euclid(NS_S as i128)) * NS_S as i128 + sub
+            }
+            _ => elapsed_4digit(rng, ts),
+        };
         m.eload_dur(ts, ns_dur(v));
-        let (name, c, _) = named[i % 8];
+        let (name, c, _) = named[(i + i / 40) % 8];
         let a = m.e;
         let off = if i % 3 == 0 { ns_dur((rng.below(2 * 1439 + 1) as i128 - 1439) * 60 * NS_S as i128) } else { Duration::ZERO };
         let r = if i % 3 == 0 { catch(|| format!("{}", Formatter::with_timezone(a, off, c))) } else { catch(|| format!("{}", Formatter::new(a, c))) };
